@@ -99,12 +99,12 @@ class StickyChooser:
         return t
 
 
-def digest_fine(r, fine_seed):
+def digest_fine(r, fine_seed, fine_p=0.12):
     F = datarun.Facts(r)
-    viol = [{'case': {'scenario': r.sc.describe(), 'schedule': [c for c, _ in r.taken], 'source': 'fine', 'fine_seed': fine_seed}, 'detail': d, 'key': k, 'kind': 'schedule'}
+    viol = [{'case': {'scenario': r.sc.describe(), 'schedule': [c for c, _ in r.taken], 'source': 'fine', 'fine_seed': fine_seed, 'fine_p': fine_p}, 'detail': d, 'key': k, 'kind': 'schedule'}
             for d, k in datarun.oracle_c16(r, F)]
     if r.crashes:
-        viol.append({'case': {'scenario': r.sc.describe(), 'schedule': [c for c, _ in r.taken], 'source': 'fine', 'fine_seed': fine_seed},
+        viol.append({'case': {'scenario': r.sc.describe(), 'schedule': [c for c, _ in r.taken], 'source': 'fine', 'fine_seed': fine_seed, 'fine_p': fine_p},
                      'detail': 'a library thread / pool job died with %r' % (r.crashes[0],), 'key': {'kind': 'crash'}, 'kind': 'schedule'})
     return {'labels': None, 'sent': [], 'viol': viol, 'status': r.status, 'nprod': 0, 'scenario': r.sc.describe(),
             'schedule': [c for c, _ in r.taken], 'big': 0, 'fine': True}
@@ -164,6 +164,7 @@ def run(ctx, res):
             res.sample({'scenario': d['scenario'], 'schedule': d['schedule'][:40], 'lines': [x[:80] for x in d['sent'][:6]]})
     res.traces = len(digs)
     boundary_part(ctx, res)
+    producer_races(ctx, res)
     if ctx.tier == 'thorough':
         real_thread_stress(ctx, res)
     # keep one violation per kind
@@ -175,6 +176,48 @@ def run(ctx, res):
             uniq.append(v)
         seen.add(k)
     res.oracle_violations[:] = uniq
+
+
+def producer_race_work(arg):
+    """several adapter threads submitting at the same time on items that are subscribed, LINE-granular preemption with a
+    high density of preemption points: races between producers that no lock, queue or clock access separates (a buffer
+    shared by two calls of the notification path).  Oracle only."""
+    import logging
+    logging.disable(logging.CRITICAL)
+    from datarun import Scenario
+    seed, n = arg
+    rng = random.Random(seed)
+    out = []
+    for i in range(n):
+        items = ['a', 'b'][:rng.choice([1, 2])]
+        reqs = [('%s1' % it, 'SUB', it) for it in items]
+        nthreads = rng.choice([2, 3, 4])
+        free = [[(rng.choice(['upd', 'upd', 'upd', 'eos', 'cls', 'fal']), rng.choice(items)) for _ in range(rng.randint(3, 7))] for _ in range(nthreads)]
+        sc = Scenario(rng.choice([1, 2]), [reqs], {it: {'snap': [True]} for it in items}, free=free)
+        s2 = rng.getrandbits(32)
+        # the subscriptions first (threads of the library have priority until they are at rest), then the producers at random
+        r2 = random.Random(s2)
+
+        def bias(en, sched):
+            lib = [t for t in en if t.role in ('reader', 'worker', 'writer')]
+            return lib[0] if lib else None
+        r = datarun.run_scenario(sc, dsched.RandomChooser(r2, bias=bias), eager=(), probe=False, fine=True, fine_seed=s2, fine_p=0.45)
+        out.append(digest_fine(r, s2, 0.45))
+    return out
+
+
+def producer_races(ctx, res):
+    n = 160 if ctx.tier == 'quick' else 4000
+    jobs = [(ctx.rng.getrandbits(40), n // 8) for _ in range(8)]
+    with multiprocessing.get_context('fork').Pool(8) as pool:
+        results = pool.map(producer_race_work, jobs, chunksize=1)
+    for out in results:
+        for d in out:
+            res.evaluations += 1
+            res.count('producer-race (line-granular, oracle only)' + ('' if d['status'] == 'quiescent' else ':' + d['status']))
+            for v in d['viol']:
+                v['key'] = dict(v['key'], producer_race=True)
+                res.oracle_violations.append(v)
 
 
 def boundary_scenario(size):
@@ -339,6 +382,6 @@ def replay(ctx, data):
     sc.sizes = {int(k): v for k, v in (c['scenario'].get('sizes') or {}).items()}
     sc.fail_send = c['scenario'].get('fail_send')
     fine = c.get('source') == 'fine'
-    r = datarun.run_scenario(sc, dsched.ListChooser(c['schedule']), eager=(), probe=False, fine=fine, fine_seed=c.get('fine_seed', 0))
+    r = datarun.run_scenario(sc, dsched.ListChooser(c['schedule']), eager=(), probe=False, fine=fine, fine_seed=c.get('fine_seed', 0), fine_p=c.get('fine_p', 0.12))
     v = datarun.oracle_c16(r, datarun.Facts(r))
     return bool(v), 'oracle: %r' % (v[:3],)
